@@ -886,7 +886,7 @@ pub fn gen_input(rng: &mut Rng, case: &Case) -> String {
             rng.pick(&spellings).to_string()
         }
     };
-    match rng.weighted(&[6, 6, 12, 14, 14, 8, 10, 16, 2, 6, 6, 8]) {
+    match rng.weighted(&[6, 6, 12, 14, 14, 8, 10, 16, 2, 6, 6, 8, 5]) {
         0 => String::new(),
         1 => {
             // blank or invisible strings, alone or in front of / behind a spelling
@@ -935,6 +935,15 @@ pub fn gen_input(rng: &mut Rng, case: &Case) -> String {
         9 => {
             let b = base(rng);
             b.to_uppercase()
+        }
+        12 => {
+            // the spelling with its doubled braces collapsed (what format! would print) or doubled once more
+            let b = base(rng);
+            if rng.chance(2, 3) {
+                b.replace("{{", "{").replace("}}", "}")
+            } else {
+                b.replace('{', "{{").replace('}', "}}")
+            }
         }
         11 => {
             // bit 0x20 flipped on ASCII bytes that are NOT letters ('_' <-> DEL, ' ' <-> NUL, '1' <-> 0x11,
